@@ -1112,6 +1112,9 @@ class Engine:
             if f is None or self.spec:
                 return [(s, mk_bool(a.t == b.t))]
             return self.call_function(f, a, [b], {}, s, recv_static=a.ty.cls)
+        if ka == "tup" and kb == "tup" and self.spec and a.ty == b.ty:
+            # in specifications tuple equality is structural identity of the components
+            return [(s, mk_bool(self.pack(a).t == self.pack(b).t))]
         if ka == "tup" and kb == "tup":
             ia, ib = self.unpack(a), self.unpack(b)
             if len(ia) != len(ib):
@@ -1156,7 +1159,8 @@ class Engine:
         if k == "seq":
             it, c = self.coerce(item, cont.ty.elem)
             self.pack(it)
-            r = z3.Contains(cont.t, z3.Unit(it.t))
+            from . import calls as _calls
+            r = _calls.seq_member(self, cont, it)
             if c is not None:
                 r = z3.And(c, r)
             return [(s, mk_bool(r))]
